@@ -100,12 +100,22 @@ def gen_case(rng, thorough, inside):
                     rule["when"]["pattern"] = json.loads(txt.replace('"%s"' % rng.choice(vs), '"%s"' % rng.choice(["?location", "?ruleId", "?event"])))
             if rng.random() < 0.07:
                 rule = {"schedule": "+1h", "action": action(rng, 0)}   # scheduled rules are never dispatched for events
-            ops.append({"op": "addRule", "loc": loc, "id": rng.choice(RIDS), "rule": rule})
+            rid_ = rng.choice(RIDS)
+            ops.append({"op": "addRule", "loc": loc, "id": rid_, "rule": rule})
+            if rng.random() < 0.08 and "when" in rule:
+                # the rule is replaced by itself up to the names of its variables (same keys, same constants: the same place in the
+                # index): afterwards there is one rule under that id, found by the events that matched before, binding the new names
+                txt = json.dumps(rule)
+                vs = sorted(set(v for v in gen.VARS if '"%s"' % v in txt))
+                if vs:
+                    again = json.loads(txt.replace('"%s"' % vs[0], '"?renamed"'))
+                    ops.append({"op": "addRule", "loc": loc, "id": rid_, "rule": again})
+                    ops.append({"op": "event", "loc": "a", "event": copy.deepcopy(d)})
             if rng.random() < 0.08 and "when" in rule:
                 # a replacement the index rejects (an array of mixed types cannot be sorted): the stored rule must stay findable
                 bad = copy.deepcopy(rule)
                 bad["when"]["pattern"] = dict(bad["when"]["pattern"], **{rng.choice(gen.KEYS): rng.choice([[1, "one"], [[1], [2]], [{"a": 1}, 2]])})
-                ops.append({"op": "addRule", "loc": loc, "id": ops[-1]["id"], "rule": bad})
+                ops.append({"op": "addRule", "loc": loc, "id": rid_, "rule": bad})
                 ops.append({"op": "event", "loc": "a", "event": copy.deepcopy(d)})
         elif r < 0.50:
             ops.append({"op": "remRule", "loc": loc, "id": rng.choice(RIDS)})
